@@ -19,7 +19,7 @@ def run(ctx):
                 'on one request the wrappers run in list order, outermost first, the embedding application\'s before the embedded one\'s, a unique type once'),
         Ob('files_released', 'ob_files_released', '', packed=[('file_i', 5), ('ims_sel', 4), ('method_i', 2), ('via_route', 2, 'bool')], timeout=tmo, confirm='confirm_files_released',
            desc='StaticApplication / StaticFileRoute responses (200, 304 for If-Modified-Since at/after the mtime, HEAD): after close() of the returned iterable no file opened by clastic.static is still open'),
-        Ob('reroute', 'ob_reroute', '', packed=[('how', 4), ('si', 4), ('hi', 3), ('bi', 4), ('extra_env', 3), ('pv', 5)], cells=[('how%d' % h, [{'how': h}]) for h in range(4)],
+        Ob('reroute', 'ob_reroute', '', packed=[('how', 4), ('pv', 5), ('si', 4), ('hi', 3), ('bi', 4), ('extra_env', 3)], cells=[('how%d_pv%d' % (h, v), [{'how': h, 'pv': v}]) for h in range(4) for v in range(5)],
            timeout=tmo, confirm='confirm_reroute',
            desc='RerouteWSGI used as endpoint / raised by endpoint, middleware or render, on exact, rewritten (missing or repeated slashes, rewrite mode) and strict paths: the target gets the very environ object with every original entry, and its '
                 'status line, header list and body iterable reach the server verbatim'),
